@@ -35,8 +35,8 @@ func genC17(sc *Scenario) {
 		}
 		sc.RootRel = cands[simrt.Choice("c17.root", len(cands))]
 	}
-	if simrt.Flip("c17.output-file", 0.1) {
-		sc.OutputFile = "single.go"
+	if simrt.Flip("c17.output-file", 0.12) {
+		sc.OutputFile = []string{"single.go", "nested/single.go", "../up.go", "../../up2.go", "../../../up3.go"}[simrt.ChoiceBias("c17.output-file-shape", 5, 0.5)]
 	}
 	// failing module
 	if simrt.Flip("c17.fail-module", 0.3) {
@@ -199,7 +199,7 @@ func corePaths(sc *Scenario) []string {
 		if sc.OutputFile != "" {
 			name = sc.OutputFile
 		}
-		out = append(out, rel+"/"+name)
+		out = append(out, path.Clean(rel+"/"+name))
 	}
 	return out
 }
@@ -240,6 +240,11 @@ func expectC17(sc *Scenario) c17Expect {
 	}
 	if !ancestryOK(sc) {
 		e.preWriteFailure = append(e.preWriteFailure, "a Thrift file lies outside the thrift root")
+	}
+	if strings.Contains(sc.OutputFile, "/") {
+		// the single output file goes into the Thrift file's package directory;
+		// a value with directories could leave the output directory
+		e.preWriteFailure = append(e.preWriteFailure, "--output-file names a path, not a file name")
 	}
 	for _, ps := range sc.Plugins {
 		switch {
